@@ -110,6 +110,11 @@ def atoms_catalogue(rng, thorough):
         if r >= 2:
             A.append(leaf("FiniteDifference", s, [0, r - 1]))
             A.append(leaf("FiniteDifference", s, [-2, -1]))
+    # multipliers stored in narrow integer dtypes whose squares do not fit the dtype (8-bit masks with value 150, int16 values 200)
+    A.append(leaf("Multiply", [3], [3], [150, 13, 1], [0, 0, 0], [0], [1]))
+    A.append(leaf("Multiply", [2, 3], [2, 1], [150, 0], [0, 0], [0], [1]))
+    A.append(leaf("Multiply", [3], [3], [200, -150, 3], [0, 0, 0], [0], [2]))
+    A.append(leaf("Multiply", [2, 2], [2], [181, -200], [0, 0], [1], [2]))
     # Down/Upsample
     for s in s1 + s2:
         r = len(s)
@@ -254,6 +259,9 @@ def themes(ctx):
     T.append(dict(name="stack", atoms=stack_catalogue(), scalars=[(0, 1)], axes=none_and([0, 1, -1, -2, 2, -3]), arities="{2, 3}" if th else "{2}",
                   max_stack=3 if th else 2, max_flat=16, max_level=4 if th else 3,
                   calls=["Push", "Hstack", "Vstack", "Diag", "H", "N"] + (["Mul"] if th else [])))
+    # deep nesting over three atoms: sums of sums, differences of composites, products of sums (five calls, e.g. Push Push Add Push Add)
+    T.append(dict(name="nest", atoms=algebra_catalogue()[:3], scalars=[(0, 1)], axes="{<<>>}", arities="{2}",
+                  max_stack=2, max_flat=12, max_level=5 if not th else 6, calls=["Push", "Dup", "Mul", "Add", "Sub", "H"]))
     if not th:
         # three operands (split indices beyond the first boundary), fewer atoms / axes to stay small
         T.append(dict(name="stack3", atoms=stack_catalogue()[:5], scalars=[(0, 1)], axes=none_and([0, -1, 1]), arities="{3}",
@@ -401,6 +409,18 @@ def check_entry(entry):
                 out.append(_viol(["C02", "C03"], "real_input_wrong", api, "float64 input: result differs from the matrix action (imaginary part dropped or mixed)"))
             if not np.array_equal(xr, xr0):
                 out.append(_viol(["C02"], "mutated", api, "real input mutated"))
+            # building an expression must not change the operator objects it was built FROM (they may be kept and used again):
+            # every operand object, as it is after the construction, still acts like a freshly built copy of itself
+            try:
+                for c_api in api["s"]:
+                    co = b.build(c_api)
+                    cf = linop_build.Builder(sp).build(c_api)
+                    nin = int(np.prod(co.ishape)) if len(co.ishape) else 1
+                    xin = (rng.randint(-3, 4, nin) + 1j * rng.randint(-3, 4, nin)).astype(np.complex128).reshape(co.ishape)
+                    if list(co.oshape) != list(cf.oshape) or not np.allclose(np.asarray(co(xin.copy())), np.asarray(cf(xin.copy())), **tol):
+                        out.append(_viol(["C02"], "operand_changed", api, "after %s was built from it, the operand %s no longer acts like a fresh copy of itself" % (api["k"], api_summary(c_api)[:120])))
+            except Exception as e:
+                out.append(_viol(["C02"], "reapply_raises", api, "re-application of an operand after the construction raised %r" % (e,)))
             # a FRESH operator object applied to a real array first and to a complex one afterwards (and a complex64 one): nothing
             # an application leaves behind in the object (buffers, dtypes, shapes) may influence the next application
             try:
